@@ -779,6 +779,16 @@ impl StakingWorld {
         } else if !actual_boosted.is_zero() {
             tr.fail("C11", "unexpected_boosted_payment", site, &format!("pools lost {}", actual_boosted));
         }
+        // F of the boosted formula is "the farm's position": every user operation that runs the boosted claim (merge
+        // excepted: it cannot change the supply and does not write it) records the supply it leaves as this week's F
+        if info.boosted_user.is_some() && site != "merge" {
+            if let Some(qw) = post.weeks.get(&post.week) {
+                if qw.fs != post.sup {
+                    tr.fail("C11", "farm_supply_recorded", site,
+                        &format!("week {}: recorded farm supply {} but the farm-token supply is {}", post.week, qw.fs, post.sup));
+                }
+            }
+        }
         // ---- C06: reward formula ------------------------------------------------------------
         if let (Some(rw), Some((amt, trps))) = (&info.reward_ret, &info.base_on) {
             let base_e = if &post.rps > trps { amt * (&post.rps - trps) / &self.dsc } else { BigUint::zero() };
